@@ -125,8 +125,8 @@ def denoted_fields(e, state, addr):
     return set()
 
 
-def check_done(chk, prog, f):
-    """O1: release typestate of self's fields in a done function.  A field may be released through the field expression
+def check_done(chk, prog, f, rule="O1"):
+    """O1 (done functions) / O13 (every other method): release typestate of self's fields in a done function.  A field may be released through the field expression
     itself, through a local holding its value, or through a pointer to it; the reset must follow on every path."""
     cfg = nullness.prepared_cfg(f, NORETURN)
     addr = address_sets(f)
@@ -185,9 +185,10 @@ def check_done(chk, prog, f):
     fields = sorted(set(relsite))
     for fld in fields:
         n = bad.get(fld)
-        chk.ob("O1", f.name, "nulled-after-release:" + fld, n is None, loc=f.loc(n) if n else f.loc(relsite[fld]),
+        chk.ob(rule, f.name, "nulled-after-release:" + fld, n is None, loc=f.loc(n) if n else f.loc(relsite[fld]),
                detail="%s releases self->%s (%s) but a path returns without resetting the field: the object keeps a dangling "
-                      "pointer, so done()+reuse or a second done() frees it again" % (f.name, fld, f.loc(relsite[fld])),
+                      "pointer, so %s frees it again" % (f.name, fld, f.loc(relsite[fld]),
+                                                          "done()+reuse or a second done()" if rule == "O1" else "the next call of this method, done() or del()"),
                proof="every path from the release to a return stores to self->%s" % fld)
     return fields
 
@@ -546,6 +547,22 @@ def run(tier="quick"):
                 s = X.strip(c["ch"][1])
                 if s.get("k") == "ref" and s.get("d") in al:
                     released[rec].add(al[s["d"]])
+    # O13 the same typestate for every other method of these classes: a method that releases the object one of self's fields
+    # holds (to replace it) stores the field again - a new object or NULL - on every path to its return, also on the paths on
+    # which it refuses to go on (a REQUIRE behind the release)
+    chk.rule("O13", "a method that releases the object in one of self's fields stores that field again on every path to its return")
+    n13 = 0
+    done_names = {f.name for f in dones}
+    for f in prog.all_functions():
+        if f.unit.name not in FILES or f.body is None or f.cfg is None or not f.params or f.name in done_names or re.search(r"_del$", f.name):
+            continue
+        if classinfo.rec_of_param(f, 0) is None:
+            continue
+        if not any(own.release_kind(c) in ("free", "del") and c["ch"][1:] and any(self_field(y) is not None for y in walk(c["ch"][-1] if X.callee_name(c) == "spifmem_free" else c["ch"][1]))
+                   for c in X.calls_in(f.body)):
+            continue
+        n13 += len(check_done(chk, prog, f, rule="O13"))
+    chk.count("fields_released_by_other_methods", n13, floor=5)
     # O2
     stores = fresh_field_stores(prog, FILES)
     done_of = {classinfo.rec_of_param(f, 0): f for f in dones}
